@@ -512,6 +512,9 @@ def run(ctx):
     # C. resolvers: both are interpreted on name shapes x default namespaces -----------------------------------------------------------------
     for label, ok, msg, file, line in resolver_table(ctx):
         ctx.ob('C10.resolver', label, ok, msg, file=file, line=line, witness='select * from INT1.tbl1 a join files f on ...')
+    # C2. the join planner takes the database qualifier off (resolve_table) and process_table puts it back for the fetch: the two steps composed are the identity
+    for label, ok, msg, line in join_fetch_table(ctx):
+        ctx.ob('C10.join-fetch-table', label, ok, msg, file=PJ, line=line, witness='select * from int1.int1.orders a join int2.u b on a.id = b.id')
     # D. qualifier strip: truth table of prepare_integration_select ------------------------------------------------------------------------
     table = rewrite_table(ctx)
     ctx.setcount('rewrite_rows', len(table))
@@ -799,6 +802,54 @@ def resolver_table(ctx):
                         f'[{label}] resolves to {got}, expected {want} with the reference of the query unchanged: the first part names the database exactly when the '
                         f'name has more than one part and that part, in any letter case, is a known database (reported lower-cased); otherwise the default namespace; '
                         f'PlanningException when there is none', file, fn.lineno))
+    return out
+
+
+def join_fetch_table(ctx):
+    """resolve_table followed by process_table, both interpreted, on name shapes (a schema named like the integration, mixed case, unqualified names under a
+    default namespace): the table the fetch step names is <integration>.<the rest of the name as written> - the qualifier is put back exactly when it was taken off,
+    so that get_integration_select_step resolves the same database and sends the same table name as a single-table select does."""
+    from ..interp import Interp, Obj, Raised, Env
+    from . import C08
+    tree = ctx.src.tree(PJ)
+    c = class_named(tree, 'PlanJoinTablesQuery')
+    rt, pt, init = function_named(c, 'resolve_table'), function_named(c, 'process_table'), function_named(c, '__init__')
+    cqc = function_named(c, 'check_query_conditions')
+    ctx.need(rt is not None and pt is not None and cqc is not None, 'resolve_table / process_table / check_query_conditions not found')
+    C08._CTX.clear()
+    C08._CTX.update(tree=tree, src=ctx.src, ctx=ctx, pjt_init=init)
+    dbs = ['int1', 'int2', 'mindsdb', 'files']
+    shapes = [['int1', 't'], ['INT1', 't'], ['int1', 'int1', 't'], ['int1', 'INT1', 't'], ['Int1', 'int1'], ['int1', 'sch', 't'], ['int2', 'int1', 't'], ['t'], ['int1'],
+              ['sch', 't'], ['files', 'files']]
+    out = []
+    for parts, default_ns in itertools.product(shapes, ('int1', 'mindsdb')):
+        planner = Obj('QueryPlanner', databases=list(dbs), default_namespace=default_ns, integrations={d: {} for d in dbs}, projects=['mindsdb'], predictor_namespace='mindsdb')
+        node = Obj('Identifier', parts=list(parts), alias=Obj('Identifier', parts=['al'], alias=None, parentheses=False), parentheses=False)
+        captured = []
+        stubs = C08.base_stubs()
+        stubs['TableInfo'] = lambda it, integration, table, aliases, **k: Obj('TableInfo', integration=integration, table=table, aliases=aliases, index=0, join_condition=None,
+                                                                              join_type=None, predictor_info=None, **k)
+        stubs['self.get_filters_from_join_conditions'] = lambda it, item: []
+        stubs['self.planner.get_integration_select_step'] = lambda it, s_: (captured.append(s_), Obj('FetchDataframeStep', query=s_, result=Obj('Result')))[1]
+        stubs['self.add_plan_step'] = lambda it, s_: s_
+        stubs['self.check_node_condition'] = lambda it, n: None
+        self_ = C08.new_pjt(planner=planner, query_context={}, tables_fetch_step={}, step_stack=[])
+        q = C08.select_ctor(None, targets=[Obj('Star')])
+        it = C08.interp_for(stubs)
+        label = f'{".".join(parts)} (default namespace {default_ns})'
+        qualified = len(parts) > 1 and parts[0].lower() in dbs
+        want = [parts[0].lower() if qualified else default_ns] + (list(parts[1:]) if qualified else list(parts))
+        try:
+            it.call_function(cqc, [self_, q], {}, C08._env())       # the bookkeeping entries process_table reads
+            self_.attrs['query_context']['use_limit'] = False
+            info = it.call_function(rt, [self_, node], {}, C08._env())
+            it.call_function(pt, [self_, info, q], {}, C08._env())
+            got = list(captured[0].from_table.parts) if len(captured) == 1 else f'{len(captured)} fetches'
+        except Raised as r:
+            got = f'raises {r.exc_name}'
+        out.append((label, got == want, f'[{label}] in a join the table is fetched as {got}, expected {want}: the database qualifier resolve_table took off is put back as '
+                                         f'it is, whatever the rest of the name looks like - otherwise the fetch names another table than a single-table select of the same name',
+                    pt.lineno))
     return out
 
 
